@@ -18,7 +18,7 @@ Spec == Init /\ [][Next]_vars
 \* the hashes never influence a transition; of tk only "is it a comment token" does, of sig only the
 \* regular-expression rule: the view keeps exactly what can influence the future
 View == <<lang, [st EXCEPT !.h1 = 0, !.h2 = 0, !.tk = IF @ = TokComment THEN 1 ELSE 0,
-                           !.sig = IF JsRegexMayFollow(@) THEN 1 ELSE 0, !.cc = FALSE]>>
+                           !.sig = IF JsRegexMayFollow(@) THEN 1 ELSE 0]>>
 Bound == Len(st.stk) <= 1 /\ st.bd <= 1 /\ Len(st.dl) <= 2 /\ Len(st.pfx) <= MaxPfx /\ TLCGet("level") <= MaxLevel
 
 TypeOK ==
@@ -42,6 +42,6 @@ ErrSticky == [][st.m = "err" => st' = st]_vars
 LookAhead == {"qo", "q1", "q2", "vq", "escz", "rawe", "tdl"}
 SkeletonIgnoresEnvelopeContent ==
   [][InEnvelope(st) /\ st.m \notin LookAhead /\ st'.m = st.m /\ st'.stk = st.stk => st'.h1 = st.h1 /\ st'.h2 = st.h2]_vars
-\* code units always reach it (white space excepted)
-SkeletonSeesCode == [][st'.cc => (st'.h1 # st.h1 \/ st'.h2 # st.h2)]_vars
+\* code units always reach it (white space excepted): a step from code to code over a non-white unit changes it
+SkeletonSeesCode == [][st.m = "code" /\ st'.m = "code" /\ st'.sig # st.sig => (st'.h1 # st.h1 \/ st'.h2 # st.h2)]_vars
 =============================================================================
